@@ -920,6 +920,11 @@ func newCommonNode(ctx context.Context, cfg CommonConfig) *commonNode {
 // TransactionResultsFromCometBFT converts CometBFT transactions and responses
 // into transaction results.
 func TransactionResultsFromCometBFT(height int64, txs [][]byte, responses []*cmtabcitypes.ResponseDeliverTx) ([]*results.Result, error) {
+	// Stateless clients pass results obtained from an untrusted provider.
+	if len(txs) != len(responses) {
+		return nil, fmt.Errorf("cometbft: mismatched number of transactions and results (%d != %d)", len(txs), len(responses))
+	}
+
 	txResults := make([]*results.Result, 0, len(txs))
 
 	for idx, rs := range responses {
